@@ -225,7 +225,10 @@ class CallMixin:
         # result
         rshape = getattr(c, "returns", None)
         res = None
-        if rshape is not None:
+        if getattr(c, "returns_value", None) is not None:
+            # the contract names the returned value by a spec expression over the pre-state (e.g. a ghost field)
+            res = self.spec_value(c.returns_value, pre)
+        elif rshape is not None:
             res = self.fresh_value(self.shape(rshape), uid("ret_" + qual.split(".")[-1]), st)
         # the callee may allocate: the allocation frontier moves forward by an unknown amount
         new_alloc = z3.Int(uid("alloc"))
@@ -365,6 +368,10 @@ class CallMixin:
                 new = self.list_literal([x])
             else:
                 new = VList(_inc(L.length), sto(L.elems, [to_z3(L.length)], self.coerce(x, L.eshape)), L.eshape)
+            self.assign_to(recv_node, new, st, node)
+            return None
+        if name == "extend" and isinstance(args[0], VList):
+            new = self.list_concat(L, self.coerce(args[0], ("list", L.eshape)) if L.elems is not None else args[0])
             self.assign_to(recv_node, new, st, node)
             return None
         if name == "pop":
@@ -722,6 +729,9 @@ class CallMixin:
             for k in reversed(ks):
                 mem = z3.Lambda([k], mem)
             return VSet(v.eshape, mem)
+        if isinstance(v, VRange):
+            k = z3.Int(uid("k"))
+            return VSet(("int",), z3.Lambda([k], z3.And(k >= to_z3(v.lo), k < to_z3(v.hi))))
         raise Unsupported("set() of this value")
 
     def bi_enumerate(self, args, kw, node, st):
